@@ -124,10 +124,15 @@ def run_one(idx, mut, all_checks, scale):
         if c.returncode != 0:
             res['outcome'] = 'does-not-compile'
             return res
-        s = subprocess.run('cd %s && %s -m pytest -q -x -p no:cacheprovider --timeout=300 tests/python 2>&1 | tail -1' % (d, PY), shell=True,
+        if os.environ.get('MUT_SKIP_SUITE'):
+            s = None
+            res['suite'] = 'survived in the first pass'
+        else:
+          s = subprocess.run('cd %s && %s -m pytest -q -x -p no:cacheprovider --timeout=300 tests/python 2>&1 | tail -1' % (d, PY), shell=True,
                            capture_output=True, text=True, timeout=1800)
-        res['suite'] = s.stdout.strip()[-80:]
-        if '509 passed' not in s.stdout or 'failed' in s.stdout:
+        if s is not None:
+            res['suite'] = s.stdout.strip()[-80:]
+        if s is not None and ('509 passed' not in s.stdout or 'failed' in s.stdout):
             res['outcome'] = 'killed-by-suite'
             return res
         order = list(mut['checks']) + ([c for c in all_checks if c not in mut['checks']] if os.environ.get('MUT_ALL_CHECKS') else [])
@@ -173,6 +178,7 @@ def main():
         want = set((r['file'], r['line'], r['op']) for r in json.load(open(recheck))['not_reported'])
         ms = [m for m in sites() if (m['file'], m['line'], m['op']) in want]
         os.environ['MUT_ALL_CHECKS'] = '1'
+        os.environ['MUT_SKIP_SUITE'] = '1'
     if mx:
         ms = ms[:mx]
     print('%d mutation sites' % len(ms))
